@@ -321,6 +321,7 @@ def merge(job, res, parts):
     failed = []
     canary_failed = False
     n = 0
+    errors = 0
     classes = {}
     undec = [p for p in parts if p["status"] != "done"]
     for part in parts:
@@ -338,6 +339,10 @@ def merge(job, res, parts):
             n += 1
             c = prop_class(r)
             classes[c] = classes.get(c, 0) + 1
+            if r.get("status") not in ("SUCCESS", "FAILURE"):
+                # ERROR / UNKNOWN: the solver gave up (out of memory ...) - undecided, never a violation
+                errors += 1
+                continue
             if r.get("status") != "SUCCESS":
                 failed.append(
                     {
@@ -355,6 +360,9 @@ def merge(job, res, parts):
     res["failed"] = failed
     if failed:
         res["status"] = "fail"
+    elif errors:
+        res["status"] = "undecided"
+        res["reason"] = "%d obligation(s) without verdict: solver error (out of memory?)" % errors
     elif undec:
         res["status"] = "undecided"
         res["reason"] = "; ".join(sorted(set(p["reason"] for p in undec)))
